@@ -379,6 +379,32 @@ func runCheck(repo, prop, tier string, opt Options, verbose bool) int {
 				}
 			}
 		}
+		if con != nil {
+			var bl []string
+			for _, cl := range con.Ensures {
+				if cl.BoundedOnly && (len(cl.Props) == 0 || hasProp(cl.Props, prop)) {
+					bl = append(bl, cl.Label)
+				}
+			}
+			if len(bl) > 0 {
+				fb := w.boundedStandIn(r.Key, con, prop)
+				if fb == nil {
+					total++
+					violation(r.Key, "ensures["+bl[0]+"]", nil, "the bounded clause(s) "+strings.Join(bl, ",")+" could not be run against the real code (no executable harness)")
+				} else if len(fb.Fails) > 0 {
+					total++
+					f := fb.Fails[0]
+					ob := "ensures[" + f.Clause + "]"
+					if f.Kind == "panic" {
+						ob = "safe:panic"
+					}
+					violationReplay(r.Key, ob, f, "the executable contract (bounded clauses "+strings.Join(bl, ",")+") fails on the real code")
+				} else {
+					fmt.Printf("BOUNDED: property=%s %s: clause(s) %s are checked by running the real function only: held on %d runs over the bounded domain (not counted as proved)\n", prop, r.Key, strings.Join(bl, ","), fb.Runs)
+					bounded = append(bounded, fmt.Sprintf("%s: bounded-only clause(s) %s: %d runs of the executable contract over the domain of harness/%s_states.go.txt", r.Key, strings.Join(bl, ","), fb.Runs, con.Pkg))
+				}
+			}
+		}
 		for _, o := range r.Obs {
 			ops := []string(nil)
 			if con != nil {
